@@ -43,6 +43,7 @@ Definition cache_op (o : op) : bool :=
   match o with
   | PPut _ _ | PInner _ _ | PDelete _ | POpen _ _ | PGet _
   | POpenF _ _ _ | PGetF _ _ | PGetClose _ _ | PPutFail _ _ | PDeleteFail _ | PPutStoreFail _ _ _ => false
+  | TBegin | TPutTx _ _ | TDelTx _ | TCommit | TRollback | PGetTx _ | PGetCloseTx _ _ => false
   | _ => true
   end.
 
@@ -111,5 +112,62 @@ Definition part_seq_op (o : op) : bool :=
   | PPut _ _ | PInner _ _ | PDelete _ | PGet _ | PGetClose _ _ | PPutFail _ _ | PDeleteFail _ | PPutStoreFail _ _ _ => true
   | PGetF _ (FStoreFail _) => false
   | PGetF _ _ => true
+  | _ => false
+  end.
+
+(* ---- the cache part store over a real inner store, with one write transaction that stays open while others read ----
+   reference state: the committed content and what the open transaction has done so far *)
+Record tghost := { tg_cur : list (bytes * bytes); tg_tx : option (list txop) }.
+Definition tg0 : tghost := {| tg_cur := []; tg_tx := None |}.
+
+Definition tstep (g : tghost) (o : op) : tghost :=
+  match o, tg_tx g with
+  | TBegin, None => {| tg_cur := tg_cur g; tg_tx := Some [] |}
+  | TPutTx id v, Some ops => {| tg_cur := tg_cur g; tg_tx := Some (ops ++ [TxPut id v]) |}
+  | TDelTx id, Some ops => {| tg_cur := tg_cur g; tg_tx := Some (ops ++ [TxDel id]) |}
+  | TCommit, Some ops => {| tg_cur := apply_txops ops (tg_cur g); tg_tx := None |}
+  | TRollback, Some _ => {| tg_cur := tg_cur g; tg_tx := None |}
+  | _, _ => g
+  end.
+
+Definition answers (m : list (bytes * bytes)) (id : bytes) (r : res) : Prop :=
+  match alookup id m with Some v => r = RVal v | None => r = RNotFound end.
+Definition answers_prefix (m : list (bytes * bytes)) (id : bytes) (n : nat) (r : res) : Prop :=
+  match alookup id m with Some v => r = RVal (firstn n v) | None => r = RNotFound end.
+
+(* every reader outside the transaction gets exactly the COMMITTED content of that moment: the deleted bytes never
+   again after a committed DeletePart, never the older bytes after a committed PutPart, the pre-transaction bytes
+   after a rollback and while the transaction is open, never anything that was not committed under that id.
+   A reader inside the transaction gets the committed content or that transaction's own view. *)
+Definition tget_ok (g : tghost) (o : op) (r : res) : Prop :=
+  match o with
+  | PGet id | PGetF id FNone => answers (tg_cur g) id r
+  | PGetClose id n => answers_prefix (tg_cur g) id n r
+  | PGetTx id =>
+      match tg_tx g with
+      | None => r = RBad
+      | Some ops => answers (tg_cur g) id r \/ answers (apply_txops ops (tg_cur g)) id r
+      end
+  | PGetCloseTx id n =>
+      match tg_tx g with
+      | None => r = RBad
+      | Some ops => answers_prefix (tg_cur g) id n r \/ answers_prefix (apply_txops ops (tg_cur g)) id n r
+      end
+  | _ => True
+  end.
+
+Fixpoint tsound (g : tghost) (ops : list op) (rs : list res) : Prop :=
+  match ops, rs with
+  | [], [] => True
+  | o :: ops', r :: rs' => tget_ok g o r /\ tsound (tstep g o) ops' rs'
+  | _, _ => False
+  end.
+
+(* histories over a real inner store in which every GetPart runs to its end / early Close before the next step:
+   transaction steps and readers outside the transaction; [intx]: also readers inside the transaction *)
+Definition tx_seq_op (intx : bool) (o : op) : bool :=
+  match o with
+  | TBegin | TPutTx _ _ | TDelTx _ | TCommit | TRollback | PGet _ | PGetClose _ _ | PGetF _ FNone => true
+  | PGetTx _ | PGetCloseTx _ _ => intx
   | _ => false
   end.
